@@ -92,7 +92,13 @@ func (s *JSONDB) Open(dagFile string, t time.Time, requestID string) error {
 }
 
 func (s *JSONDB) Write(status *model.Status) error {
-	return s.writer.write(status)
+	// The agent writes its "running" status from a goroutine that can still be
+	// on its way when the run has ended and the store has been closed.
+	w := s.writer
+	if w == nil {
+		return ErrWriterNotOpen
+	}
+	return w.write(status)
 }
 
 func (s *JSONDB) Close() error {
